@@ -662,7 +662,7 @@ pub fn build_bench() -> i32 {
         let t0 = std::time::Instant::now();
         let spec = SearcherSpec {
             patterns: pats.clone(),
-            opts: BuildOpts { surface, kind, match_kind: MKind::LeftmostFirst, start_both: false, case_insensitive: false, dense_depth: dd, byte_classes: true, prefilter },
+            opts: BuildOpts { surface, kind, match_kind: MKind::LeftmostFirst, start_both: false, case_insensitive: false, dense_depth: dd, byte_classes: true, prefilter, via_ref: false },
             packed,
         };
         let t = build_tsut(&spec);
